@@ -12,18 +12,18 @@ Fixpoint take_digits (t : text) (acc : Z) (n : Z) : Z * Z * text :=   (* value, 
   end.
 
 Definition parse_decimal (t : text) : option (bool * Z * Z) :=   (* negative, mantissa, exponent10 *)
-  let '(neg, t1) := match t with 45%N :: r => (true, r) | _ => (false, t) end in
+  let '(neg, t1) := match t with c :: r => if N.eqb c 45 then (true, r) else (false, t) | [] => (false, t) end in
   let '(ip, ni, t2) := take_digits t1 0 0 in
   let '(m, nf, t3) := match t2 with
-                      | 46%N :: r => let '(v, n, r') := take_digits r ip 0 in (v, n, r')
-                      | _ => (ip, 0, t2)
+                      | c :: r => if N.eqb c 46 then (let '(v, n, r') := take_digits r ip 0 in (v, n, r')) else (ip, 0, t2)
+                      | [] => (ip, 0, t2)
                       end in
   if (ni + nf =? 0) then None else
   match t3 with
   | [] => Some (neg, m, - nf)
   | c :: r =>
       if (N.eqb c 101 || N.eqb c 69)%bool then
-        let '(eneg, r1) := match r with 45%N :: r' => (true, r') | 43%N :: r' => (false, r') | _ => (false, r) end in
+        let '(eneg, r1) := match r with c' :: r' => if N.eqb c' 45 then (true, r') else if N.eqb c' 43 then (false, r') else (false, r) | [] => (false, r) end in
         let '(ev, ne, r2) := take_digits r1 0 0 in
         match r2 with
         | [] => if ne =? 0 then None else Some (neg, m, (if eneg then - ev else ev) - nf)
